@@ -20,6 +20,7 @@ RULE = ("IPv4: every prefix length 0..32 x {boundary, random} network addresses;
         "prefix not a multiple of 8 (v4) / 4 (v6) or a network address with a zero group"
         "; native rendering of other valid spellings (netmask form, exploded/upper-case IPv6, host without prefix); query-level cases: the OR of patterns under AND / NOT for backends with and without in-lists")
 RULE += '; round 4: invalid texts incl. valid networks with surrounding / embedded whitespace and other foreign characters, through the value class, a rule value and a rule value list'
+RULE += '; round 5: the native expression after the same backend class rendered negated items (not-equals mode) before'
 ASSUMPTIONS = [
     "Python's ipaddress parses and normalises the CIDR text (the Lean model re-implements the text forms and is compared on every probe)",
     "IPv4 patterns are of the forms '*', 'a.*', 'a.b.*', 'a.b.c.*', 'a.b.c.d'; any other form is judged by probes only",
@@ -156,9 +157,21 @@ def run_impl(case):
 
         class B(TextQueryTestBackend):
             cidr_expression = "{field}|{value}|{network}|{prefixlen}|{netmask}"
+            # the target also has negated forms: a negated item is rendered through them (not-equals mode)
+            convert_not_as_not_eq = True
+            not_cidr_expression = "NOT:{field}|{value}|{network}|{prefixlen}|{netmask}"
+            not_eq_expression = "{field}!={value}"
         rule = SigmaCollection.from_dicts([{"title": "t", "logsource": {"category": "c"},
                                             "detection": {"sel": {"f|cidr": text}, "condition": "sel"}}])
-        native = B().convert(rule)
+        b0 = B()
+        if case["base"] % 2 == 0 or case["p"] % 3 == 0:
+            # history: the same backend class rendered negated items (CIDR and others) before; positive values come out as always
+            try:
+                b0.convert(SigmaCollection.from_dicts([{"title": "p", "logsource": {"category": "c"},
+                                                       "detection": {"sel": {"g|cidr": "172.16.0.0/12", "h": "v"}, "condition": "not sel"}}]))
+            except Exception:
+                pass
+        native = b0.convert(rule)
         # the same network in other valid spellings: the native expression must receive the normalised values all the same
         import ipaddress
         net = ipaddress.ip_network(text)
